@@ -6,6 +6,7 @@ CONSTANTS
   Classes <- AllClasses
   MaxTamper = 1
   MaxEnv = 6
+  Total = 5
   Urgent = FALSE
   Guarded = TRUE
 VIEW view
